@@ -96,6 +96,12 @@ func runC17(c *Ctx) {
 			}
 		}
 	}
+	// a tag option on a recursive back-reference is looked up under its (type, tag) key like any other
+	for _, t := range []reflect.Type{reflect.TypeOf(RecTagged{}), reflect.TypeOf(RecTaggedSlice{}), reflect.TypeOf(MutTagA{})} {
+		for _, cfg := range []Cfg{{}, {WithBQ: true, WithJSON: true}, {ProtoArrays: true}} {
+			c.addBuild(newTypeCase(t, cfg), "", "instances recursive-tagged", "recursive-tagged")
+		}
+	}
 	// which codec is in use at each position: by descriptor
 	p := newInstance(Cfg{WithBQ: true, WithJSON: true})
 	cd, err := p.CodecForType(reflect.TypeOf(RegHolder{}))
